@@ -45,6 +45,9 @@ func vTimerStop(t *time.Timer) bool { return true }
 
 func vTokens(rl *librl.RateLimiter) int { return verifGetField(rl, "tokens").(int) }
 
+// vRule0ViaDefault: rule 0 names no policy of its own and gets "strict" through defaultPolicyRef
+var vRule0ViaDefault bool
+
 func vSpec(p1limit int) *Spec {
 	s := &Spec{
 		Policies: []*Policy{
@@ -59,6 +62,11 @@ func vSpec(p1limit int) *Spec {
 		{URLRule: urlrule.URLRule{URL: urlrule.StringMatch{Prefix: verifString("rule1.prefix", 2)}}},
 	}
 	verifAssume(s.URLs[0].URL.Exact != "" && s.URLs[1].URL.Prefix != "")
+	if vRule0ViaDefault {
+		s.DefaultPolicyRef = "strict"
+		s.URLs[0].PolicyRef = ""
+		s.URLs[1].PolicyRef = "loose"
+	}
 	return s
 }
 
@@ -119,6 +127,10 @@ func verifC09_Filter() {
 // changed policy gets a fresh limiter.
 func verifC09_Inherit() {
 	vMono = 1000
+	vRule0ViaDefault = verifBool("rule0.policyThroughDefaultPolicyRef")
+	if vRule0ViaDefault {
+		verifCover("policy-through-defaultPolicyRef")
+	}
 	old := &RateLimiter{spec: vSpec(1)}
 	old.Init()
 	// exhaust the strict rule of the old generation
